@@ -282,12 +282,19 @@ STEMS = ["doc", "table[1]", "listing [a-c]", "re*port", "a?b", "out put", "t.1.2
 def run_one(ctx, env, exporter, docname, target_state, k=None, stub_mode="ok", label="", stem="doc"):
     arena, inj, trace, tap, docs = env
     ext = {"rtf": "rtf", "docx": "docx", "html": "html", "pdf": "pdf"}[exporter]
+    case_crlf = target_state == "reexport_crlf"
+    if case_crlf:
+        target_state = "reexport"
     target = arena.reset("absent" if target_state == "reexport" else target_state, ext, stem)
     if target_state == "reexport":
         # the target already holds exactly what this export will produce (an earlier, identical export), but
         # its resource folder was tampered with since: stale image, extra file
         first = make_stub(stub_mode, arena) if exporter != "rtf" else None
         call_export(docs[docname], exporter, target, first)
+        if case_crlf:
+            data0 = open(target, "rb").read()
+            with open(target, "wb") as f:
+                f.write(data0.replace(b"\n", b"\r\n"))
         res = target + "_files"
         if os.path.isdir(res):
             with open(os.path.join(res, "img.png"), "wb") as f:
@@ -297,7 +304,8 @@ def run_one(ctx, env, exporter, docname, target_state, k=None, stub_mode="ok", l
         ctx.count("reexports_onto_identical_target")
     before = snapshot(arena.out)
     stub = make_stub(stub_mode, arena) if exporter != "rtf" else None
-    case = {"exporter": exporter, "doc": docname, "target": target_state, "k": k, "stub": stub_mode}
+    case = {"exporter": exporter, "doc": docname, "target": "reexport_crlf" if case_crlf else target_state, "k": k,
+            "stub": stub_mode}
     if stem != "doc":
         case["stem"] = stem
         ctx.distinct("target_file_names", stem)
@@ -405,6 +413,10 @@ def run_shard(desc, ctx):
                         ctx.count("stub_runs")
                         run_one(ctx, env, e, d, "reexport", stub_mode="html_resources" if e == "html" else "ok",
                                 stem=rng.choice(STEMS))
+                for d in ("col_a", "paged", "multi_a"):
+                    # ... or to the new result with other line ends (a file that went through a Windows tool)
+                    ctx.count("stub_runs")
+                    run_one(ctx, env, "rtf", d, "reexport_crlf")
                 for m in ("real:html_resources",):
                     ctx.count("stub_runs")
                     run_one(ctx, env, "html", "col_a", "reexport", stub_mode=m, stem=rng.choice(STEMS))
